@@ -58,6 +58,34 @@ pub fn vector_clocks(o: &mut dyn Write, l: usize, m: u32) {
     }
 }
 
+/// Long clocks with components at the boundaries of the narrower integer types (a comparison through u8/u16, a
+/// wrapping increment or a merge that truncates is invisible on components <= 2).
+pub fn vector_clocks_big(o: &mut dyn Write, n: usize, seed: u64) {
+    let mut rng = StdRng::seed_from_u64(seed ^ 0x5eed_c20);
+    let vals: [u32; 12] = [0, 0, 1, 2, 3, 127, 128, 255, 256, 65_535, 65_536, 2_147_483_646];
+    let mut gen = |rng: &mut StdRng| -> Vec<u32> {
+        let len = rng.gen_range(0..9);
+        (0..len).map(|_| vals[rng.gen_range(0..vals.len())]).collect()
+    };
+    for i in 0..n {
+        let a = gen(&mut rng);
+        // b: independent, or a small edit of a (equal up to trailing zeros, one component changed, truncated)
+        let b = match i % 4 {
+            0 => gen(&mut rng),
+            1 => { let mut b = a.clone(); for _ in 0..rng.gen_range(0..3) { b.push(0); } b }
+            2 => { let mut b = a.clone(); if !b.is_empty() { let k = rng.gen_range(0..b.len()); b[k] = vals[rng.gen_range(0..vals.len())]; } b }
+            _ => { let mut b = a.clone(); let k = rng.gen_range(0..b.len() + 1); b.truncate(k); b }
+        };
+        let (ca, cb) = (VectorClock::from(a.clone()), VectorClock::from(b.clone()));
+        let m = VectorClock::merge_max(&ca, &cb);
+        emit(o, json!({"rec": "vc_pair", "a": a, "b": b, "cmp": cmp_str(ca.partial_cmp(&cb)), "eq": ca == cb,
+                       "merge": vc_vec(&m), "stream_a": stream_of(&ca), "stream_b": stream_of(&cb)}));
+        let k = rng.gen_range(0..a.len() + 3);
+        let inc = ca.clone().incremented(k);
+        emit(o, json!({"rec": "vc_inc", "a": a, "k": k, "inc": vc_vec(&inc), "cmp": cmp_str(ca.partial_cmp(&inc))}));
+    }
+}
+
 fn cmp_str(c: Option<std::cmp::Ordering>) -> &'static str {
     match c {
         Some(std::cmp::Ordering::Less) => "LT",
@@ -113,6 +141,32 @@ pub fn dense_maps(o: &mut dyn Write, maxlen: usize) {
                 let iter: Vec<Value> = m.iter().map(|(k, v)| json!({"k": k, "v": v})).collect();
                 let gets: Vec<Value> = (0..=maxlen + 1).map(|k| json!(m.get(k).into_iter().cloned().collect::<Vec<u8>>())).collect();
                 emit(o, json!({"rec": "dnm_from", "pairs": pj, "ok": true, "values": values, "iter": iter, "gets": gets, "len": m.len()}));
+                // the rest of the map API: Index, IndexMut, IntoIterator, From<Vec>, FromIterator<V>, Default/new, ==, hash
+                {
+                    let index: Vec<u8> = (0..m.len()).map(|k| m[k]).collect();
+                    let into: Vec<Value> = m.clone().into_iter().map(|(k, v): (usize, u8)| json!({"k": k, "v": v})).collect();
+                    let from_vec: DenseNatMap<usize, u8> = DenseNatMap::from(values.clone());
+                    let from_vals: DenseNatMap<usize, u8> = values.iter().cloned().collect();
+                    let mut grown: DenseNatMap<usize, u8> = DenseNatMap::new();
+                    for (k, v) in values.iter().enumerate() {
+                        grown.insert(k, *v);
+                    }
+                    let dflt: DenseNatMap<usize, u8> = Default::default();
+                    let same = [from_vec == m, from_vals == m, grown == m, stream_of(&from_vec) == stream_of(&m),
+                                stream_of(&grown) == stream_of(&m), (dflt == m) == values.is_empty(), dflt.len() == 0];
+                    // IndexMut at every key: exactly that key changes
+                    let muts: Vec<Value> = (0..m.len()).map(|k| {
+                        let mut m3 = m.clone();
+                        m3[k] = 7;
+                        json!(m3.values().cloned().collect::<Vec<u8>>())
+                    }).collect();
+                    // Index beyond the end panics (a total map on 0..len, nothing else)
+                    let oob = catch_unwind(AssertUnwindSafe(|| m[m.len()])).is_err();
+                    // differs from every other map of the same length in == (checked against one neighbour per key)
+                    let neq: Vec<bool> = (0..m.len()).map(|k| { let mut m3 = m.clone(); m3[k] = m3[k] + 1; m3 != m && stream_of(&m3) != stream_of(&m) }).collect();
+                    emit(o, json!({"rec": "dnm_api", "m": values, "index": index, "into_iter": into, "same": same, "muts": muts,
+                                   "oob_panics": oob, "neq": neq}));
+                }
                 // insert at every position
                 for k in 0..=m.len() + 1 {
                     let mut m2 = m.clone();
@@ -317,6 +371,7 @@ pub fn main_algebra(out: &str, what: &str, l: usize, m: u32, seed: u64) {
     match what {
         "vc" => vector_clocks(&mut o, l, m),
         "dnm" => dense_maps(&mut o, l),
+        "vcbig" => vector_clocks_big(&mut o, l, seed),
         "plans" => plans(&mut o, l, m, seed),
         "containers" => containers(&mut o, seed, l),
         "identity" => identity(&mut o),
